@@ -8,7 +8,9 @@ from ofxtools.Parser import OFXTree
 from ofxtools.utils import UTC
 
 VERSIONS = [102, 103, 151, 160, 200, 201, 202, 203, 210, 211, 220]
-TEXTS = ["user1", "p&w<d>", "O'Brien \"q\"", "é€ü", "x" * 32]
+TEXTS = ["user1", "p&w<d>", "O'Brien \"q\"", "é€ü", "x" * 32,
+         # an ampersand followed by something an HTML (not an OFX) reader would take for a character reference
+         "good&times2024", "tom&micro", "R&#38D-0042", "50%&copy", "a&ltb"]
 
 
 def tz(mins):
@@ -22,7 +24,7 @@ DATES = [datetime.datetime(2020, 1, 1, tzinfo=UTC), datetime.datetime(2021, 2, 2
 
 
 def mk_request(kind, rng, i):
-    acct = rng.choice(["123", "A&B<9>", "0001-2", "x" * 22, "y" * 30 + "-1", "y" * 30 + "-2"])      # longer than the 22 characters OFX allows: warned about, sent whole
+    acct = rng.choice(["123", "A&B<9>", "0001-2", "4111&lt1111", "x" * 22, "y" * 30 + "-1", "y" * 30 + "-2"])      # longer than the 22 characters OFX allows: warned about, sent whole
     ds, de = rng.choice(DATES), rng.choice(DATES)
     if kind == "stmt":
         return StmtRq(acctid=acct, accttype=rng.choice(["CHECKING", "SAVINGS", "MONEYMRKT", "CREDITLINE"]), dtstart=ds, dtend=de, inctran=rng.choice([True, False]))
